@@ -35,6 +35,10 @@ fn v_leaves() -> Vec<VOperand> {
         VOperand::QStrings(vec![vec![ch('A'), ch('B')]]),
         VOperand::QStrings(vec![vec![ch('K'), ch('a')], vec![ch('a'), ch('B')], vec![ch('B')]]),
         VOperand::Char(ch('A')),
+        // caseless - cased - caseless strings (the lowering of a class string keeps its pieces in order)
+        VOperand::QStrings(vec![vec![ch('1'), ch('a'), ch('2')]]),
+        // a union of string-bearing operands whose strings arrive unsorted (ka before ab), as an operand
+        VOperand::Nested(Box::new(VClass { negated: false, op: VOp::Union, operands: vec![VOperand::QStrings(vec![vec![ch('k'), ch('a')]]), VOperand::QStrings(vec![vec![ch('a'), ch('b')], vec![ch('1'), ch('a'), ch('2')]])] })),
         VOperand::Prop(false, "Lu".into()),
         VOperand::Prop(true, "Lu".into()),
         // multi-interval operands and ranges that straddle them (interval arithmetic of -- and &&)
@@ -127,7 +131,7 @@ pub fn legacy_classes() -> Vec<Node> {
 }
 
 pub fn universe() -> Vec<u32> {
-    vec![ch('a'), ch('b'), ch('d'), ch('k'), ch('K'), 0x212A, ch('s'), 0x17F, ch('&'), ch('-'), ch('1'), ch('_'), ch('x'), 8, ch('^'), ch('A'), ch(' '), ch('B')]
+    vec![ch('a'), ch('b'), ch('d'), ch('k'), ch('K'), 0x212A, ch('s'), 0x17F, ch('&'), ch('-'), ch('1'), ch('_'), ch('x'), 8, ch('^'), ch('A'), ch(' '), ch('B'), ch('2')]
 }
 
 /// (C) classes whose members sit on the UTF-8 / UTF-16 encoding-length boundaries: every class of one or two
@@ -164,7 +168,10 @@ fn wrap(class: Node) -> Vec<Node> {
 
 pub fn c12(run: &mut Run) -> Stats {
     let thorough = run.thorough();
-    let hays: Vec<Hay> = enumerate::all_hays(&universe(), 2);
+    let mut hays: Vec<Hay> = enumerate::all_hays(&universe(), 2);
+    for t in ["1a2", "1A2", "12a", "12A", "a12", "21a", "ka1", "ab1", "1ab"] {
+        hays.push(Hay::new(t.chars().map(|c| c as u32).collect()));
+    }
     let cfg = Cfg { pid: "C12", sig: class_features, prop: Prop::C01, fuel: 2_000_000, ref_limit: 3_000_000, k_ratio: 256, sparse_starts: false };
     let known = run.known.clone();
     // (A) enumerated class expressions
@@ -266,7 +273,7 @@ pub fn c12(run: &mut Run) -> Stats {
         })
         .reduce(Stats::default, Stats::merge);
     run.rule = format!(
-        "(A) {} class expressions: v-mode operands {{a b & - k U+212A U+017F \\b a-c \\d \\w \\W \\q{{ab|a|}} \\q{{b}} \\q{{ka|ab}} \\q{{AB}} \\q{{Ka|aB|B}} A \\p{{Lu}} \\P{{Lu}}}} combined by union / && / -- with optional ^, nested to depth {}, under v and iv; legacy brackets of <= 2 items with Annex B forms under \"\", i, u, iu; each as /^E$/ and /E/ against every string of length <= 2 over an 18-character universe, every start; (B) every string '[' + s, |s| <= {} over the alphabet {{[ ] ^ & - \\ q {{ }} | a b d w W k !}}, that the reference parser reads as one class, under v, iv, \"\", i, u (all spellings of the same set); (C) {} classes of one or two items (singles and ranges) over the encoding-length boundary points {{0 7C 7D 7F 80 81 7FF 800 FFFF 10000 10FFFF}} plus small literal sets around U+0080, plain and negated, under \"\", i, u, iu, v, against every haystack of length <= 1 over 20 boundary neighbours; compared with the reference semantics (range and match); non-trivial = a match exists",
+        "(A) {} class expressions: v-mode operands {{a b & - k U+212A U+017F \\b a-c \\d \\w \\W \\q{{ab|a|}} \\q{{b}} \\q{{ka|ab}} \\q{{AB}} \\q{{Ka|aB|B}} A \\p{{Lu}} \\P{{Lu}}}} combined by union / && / -- with optional ^, nested to depth {}, under v and iv; legacy brackets of <= 2 items with Annex B forms under \"\", i, u, iu; each as /^E$/ and /E/ against every string of length <= 2 over a 19-character universe (plus nine three-character strings), every start; (B) every string '[' + s, |s| <= {} over the alphabet {{[ ] ^ & - \\ q {{ }} | a b d w W k !}}, that the reference parser reads as one class, under v, iv, \"\", i, u (all spellings of the same set); (C) {} classes of one or two items (singles and ranges) over the encoding-length boundary points {{0 7C 7D 7F 80 81 7FF 800 FFFF 10000 10FFFF}} plus small literal sets around U+0080, plain and negated, under \"\", i, u, iu, v, against every haystack of length <= 1 over 20 boundary neighbours; compared with the reference semantics (range and match); non-trivial = a match exists",
         n_a,
         if thorough { 2 } else { 1 },
         maxlen,
